@@ -559,7 +559,10 @@ Definition picky (l : N) (s : state) (u : list name) : reaction :=
   match lookup (options s) 0 with Some (VInt 9%Z) => Reject | _ => Accept end.
 
 Lemma picky_nr : non_reentrant picky.
-Proof. intros l s u kw. unfold picky. destruct (lookup (options s) 0) as [[| | [|[]|] | | |]|]; discriminate. Qed.
+Proof.
+  intros l s u kw. unfold picky.
+  repeat match goal with |- context [match ?x with _ => _ end] => destruct x end; discriminate.
+Qed.
 
 Lemma nonvacuous :
   exists s', let s := trun picky false false 5 [AddOption 0 (TBase BInt) (VInt 0%Z); Connect 7; Update [(0, VInt 3%Z)]] init in
